@@ -1413,9 +1413,7 @@ func RuleQ3(c *Ctx) {
 				why = append(why, "a write at "+c.P.Pos(i.Pos())+" is not indexed by a loop variable")
 				return
 			}
-			trips, okT := cl.tripCount()
-			z, isZ := core.ConstInt(cl.init)
-			if !okT || !isZ || z != 0 || trips != ln || cl.step != 1 {
+			if !cl.visitsAll(ln) {
 				why = append(why, "the filling loop does not run over the whole table")
 				return
 			}
